@@ -11,3 +11,4 @@ import RSVerif.Properties.C15
 #print axioms RS.evalPoly_is_locator_log
 #print axioms RS.tables_spec
 #print axioms RS.table_construction_correct
+#print axioms RS.source_tables_and_integer_code
